@@ -241,6 +241,23 @@ impl<T: Elem> AnyValue for HBox<T> {
     fn value_typeid(&self) -> TypeId { self.ty }
 }
 
+/// A user-defined value kind: owns a `T`, reports the CONCRETE type (`Type = T`), and can be lazily cloned.
+/// None of the crate's own cloneable sources has a known `Type`; LazyClone forwards it.
+pub struct UVal<T: Elem>(pub T);
+impl<T: Elem> AnyValueSizeless for UVal<T> {
+    type Type = T;
+    fn as_bytes_ptr(&self) -> *const u8 { &self.0 as *const T as *const u8 }
+}
+impl<T: Elem> AnyValueTypeless for UVal<T> {
+    fn size(&self) -> usize { std::mem::size_of::<T>() }
+}
+impl<T: Elem> AnyValue for UVal<T> {
+    fn value_typeid(&self) -> TypeId { TypeId::of::<T>() }
+}
+impl<T: Elem> any_vec::any_value::AnyValueCloneable for UVal<T> {
+    unsafe fn clone_into(&self, out: *mut u8) { std::ptr::write(out as *mut T, self.0.clone()) }
+}
+
 /// Replacement iterator: instrumented next(), len() may lie - and may answer differently the second time
 /// it is asked (`claimed` = (first answer, every later answer)).
 pub struct Repl<I: Iterator> {
@@ -599,6 +616,18 @@ impl<Tr: ?Sized + TrOps, M: BackOps> World<Tr, M> {
                             // the value was not taken: destroy it here
                             unsafe { ManuallyDrop::drop(&mut x) };
                             std::panic::resume_unwind(e);
+                        }
+                    }
+                    (Api::E, Src::UserLazy(depth)) => {
+                        use any_vec::any_value::AnyValueCloneable;
+                        // the user's value lives in this frame: it is destroyed when the frame is left,
+                        // whether the vector took the clone or refused it
+                        let uv = UVal(T::new());
+                        let vv = self.v(*v);
+                        match depth {
+                            1 => { let l = uv.lazy_clone(); match ins { None => lib!(vv.push(l)), Some(i) => lib!(vv.insert(i, l)) } }
+                            2 => { let l1 = uv.lazy_clone(); let l = l1.lazy_clone(); match ins { None => lib!(vv.push(l)), Some(i) => lib!(vv.insert(i, l)) } }
+                            _ => { let l1 = uv.lazy_clone(); let l2 = l1.lazy_clone(); let l = l2.lazy_clone(); match ins { None => lib!(vv.push(l)), Some(i) => lib!(vv.insert(i, l)) } }
                         }
                     }
                     (Api::E, Src::Lazy(depth, sv, idx)) => {
